@@ -93,31 +93,36 @@ claim("C08", "DESIGN.md §5 C08",
       "the end-to-end statement 'three optima coincide on a complete grid / all routes' is NOT proved as one theorem (partial) and is decided on every run by exhaustive search: constrained optima and QUBO minima of the real path (all valid routes), arc (complete integer grid), strict and non-strict sequence models "
       "are compared with a subset-DP optimiser over independently enumerated valid routes.",
       "Small instances (<= 3 customers, n <= 18); capacity not binding.")
-claim("C09", "DESIGN.md §5 C09",
-      "Lean 4 theorems (a stored vector that satisfies the constraints has feasibility-QUBO value 0 and optimisation-QUBO value = objective, from C02/C03) + oracle on every normal return of the three real heuristics (hand-built, planted, G1 at real horizons, random MIRPs, repeated invocations)",
-      "After every normal return of make_feasible the stored solution is checked on the real object: 0/1, length n, every linear and quadratic constraint of the data then reported, QUBO values; path- and sequence-based heuristics must not raise under their stated preconditions. "
-      "The QUBO-value corollaries are theorems; soundness of the three greedy algorithms themselves is not yet a theorem (partial) and rests on the every-return oracle.",
-      "Preconditions of the 'always succeeds' clauses as listed in the evidence.")
+claim("C09", "DESIGN.md §5 C09, §11",
+      "Lean 4 soundness theorems for the operational models of all three construction heuristics (fold invariants -> walks / exact cover / depot routes -> representation theorems of C05-C07), totality of the path-based one, QUBO-value corollaries + correspondence of the heuristics (outcome, graph, vehicles/pool, solution) + oracle on every normal return",
+      "Proved: whenever the sequence-, path- or arc-based make_feasible (as modelled operationally, incl. the repaired raise-on-miss / exit-arc / fresh-name rules) returns normally, the stored vector has length n, is 0/1 and satisfies every linear and quadratic constraint of the RESULTING instance; "
+      "hence feasibility-QUBO value 0 and optimisation-QUBO value = objective; the path-based heuristic never raises under its documented preconditions, for every pool and every sampler behaviour. "
+      "The three operational models are compared with the real heuristics on every run (outcome kind, resulting graph, vehicles / pool, stored solution; the path sampler scripted identically on both sides), and every normal return of the real code (hand-built, planted, G1 at real horizons, random MIRPs, repeated invocations, queries issued before) is checked by the oracle.",
+      "Sequence-based soundness assumes L >= 3, a self-consistent graph and the depot self-arc; path-based soundness assumes the sampler returns one of the candidates it is offered (numpy.random.choice). 'Sequence-based always succeeds' is tested (oracle), not proved.")
+
 claim("C10", "DESIGN.md §5 C10",
       "Lean 4 theorems at record level (records = exactly the non-zero coefficients, each once at its own indices, rounded; loader recovers them entrywise; reloaded Ising energy = energy of the rounded problem at every spin vector; identity on hundredths; integer QUBOs give hundredth Ising coefficients hence exact reload) + byte-level comparison of the written file, loader comparison, test-set generator run",
       "Proved: export lists every non-zero linear and coupling coefficient exactly once at its own indices rounded to two decimals (half-even) with the constant, nothing else; loading the file yields entrywise the rounded coefficients (dimension <= n, missing trailing variables have no coefficient), so the energy functions agree at every spin vector; "
       "exact for feasibility instances (integer QUBO). The text layout is produced from the record model and compared byte-for-byte with the real file (minus timestamp); the package's loader output is compared with the model; gen() on small horizons: file names vs variable counts, saved constraint data reloaded through convenience().",
       "Character-level parse/render is compared, not proved; file I/O, np.savez/pickle exercised, not proved.")
-claim("C14", "DESIGN.md §5 C14",
-      "Twin-run oracle on real objects (history with vs without the queries preceding the heuristic; every query twice; battery in two orders); Lean side: C18 theorems make every query a function of the instance state",
-      "Every query of the model is a pure function of the instance state (variable lists, data, QUBO are functions of (graph, grid | pool | V, L, surcharges): C02/C18 theorems), so the property reduces to: the real object's answers depend only on its instance state, and the heuristic's effect does not depend on earlier queries. "
-      "That reduction (cache coherence of the real object) is decided by the twin-run check on generated histories; a Lean cache state machine with a refinement proof is not merged yet (partial).",
-      "Cache coherence of the Python object is established by differential testing over histories, not by a theorem.")
-claim("C16", "DESIGN.md §5 C16",
-      "Differential test on real objects: deep value snapshots of the source after every step, object-identity disjointness, fingerprints of the three formulations under all 6 request orders, getter idempotence",
-      "Isolation is a statement about Python object aliasing (copy.deepcopy); no Lean theorem carries it yet (an object-store model is planned: partial). Decided on every run by snapshots of the source VRPTW/MIRP before/after construction, heuristics and queries, identity-disjointness of nodes/arcs/containers, "
-      "and equality of complete fingerprints of each formulation across all 6 request orders.",
-      "Runtime aliasing behaviour is tested, not proved.")
-claim("C17", "DESIGN.md §5 C17",
-      "Subprocess differential test over PYTHONHASHSEED values and prior global-RNG states + in-process rebuilds; Lean side: time grid = sorted de-duplicated list is order independent (C18 sortRat theorem)",
-      "Reproducibility across interpreter runs is runtime behaviour: decided by building the same instance in separate processes under PYTHONHASHSEED in {0,1,random} and after 0/5/50 prior draws and comparing complete fingerprints (variable order, data, QUBO, solution, routes, exported lines); same explicit seed gives the same random MIRP. "
-      "The Lean model contributes the order-independence of the sorted grid; an explicit RNG-dataflow model is planned (partial).",
-      "Hash randomisation, numpy RNG, scipy.stats are trusted runtime components exercised by the test.")
+claim("C14", "DESIGN.md §5 C14, §11",
+      "Lean 4 refinement proof: the object with lazily built caches and flag resets (generic machine, instantiated for the arc- and sequence-based objects with the heuristics' reset sites) gives the same replies as the cache-free specification on every call history + correspondence of flags/outcomes/state + twin-run oracle on real objects",
+      "Proved for every call history (queries in any number and order, any number of heuristic runs): every reply of the cached object equals the reply computed from the instance state alone; asking twice gives equal results; queries before or between heuristic runs change neither the instance, the stored solution nor any later reply; "
+      "the modelled reset sites of the arc- and sequence-based heuristics cover every change of the instance (sequence: under unique node names, which the graph API guarantees; refuted without them). "
+      "The machine is tied to the code by comparing, on every generated history, heuristic outcomes, which caches are filled, final graph and stored solution; the property itself is re-checked on real objects by the twin-run oracle (history with vs without earlier queries, every query twice, fresh-object query orders).",
+      "Query kinds of the machine: size / objective / constraints (index lookups and QUBO are compositions of these in the real code).")
+
+claim("C16", "DESIGN.md §5 C16, §11",
+      "Lean 4 theorems on an explicit object store (source unchanged, non-interference, order independence of request interleavings, getter idempotence) + differential test on real objects (deep snapshots, identity disjointness, fingerprints under all 6 orders)",
+      "Proved for the object-store model (each formulation slot is created on first request from a copy of the source and only its own slot is written by calls addressed to it): the source is never changed, the state of a formulation depends only on the source and the calls addressed to it, so any interleaving / request order gives identical formulations, and a repeated request returns the same object. "
+      "That Python's deepcopy really yields disjoint objects is runtime behaviour: decided on every run by value snapshots of the source VRPTW/MIRP after every step, identity-disjointness of nodes/arcs/containers, and equality of complete fingerprints of each formulation across all 6 request orders.",
+      "The store model's granularity is one cell per formulation; aliasing inside Python objects is tested, not proved.")
+
+claim("C17", "DESIGN.md §5 C17, §11",
+      "Lean 4 dataflow theorems (time grid independent of set iteration order; path-based getter independent of the incoming generator state; same explicit seed gives the same random instance) + subprocess differential test over PYTHONHASHSEED values and prior RNG states",
+      "Proved at dataflow level: the arc-based time grid (sort of the de-duplicated point set) is the same for every enumeration order of the set; the path-based getter re-seeds, so its result is a function of the instance only; equal explicit seeds give equal random instances. "
+      "The runtime half (hash randomisation, numpy generator, scipy.stats, separate interpreter processes) is decided on every run by building the same instances in separate processes under PYTHONHASHSEED in {0,1,random} after 0/5/50 prior draws and comparing complete fingerprints, incl. explicit seed 0.",
+      "Runtime components are exercised by the test, not modelled.")
 
 for _p in ["C02", "C03", "C04", "C05", "C06", "C07", "C08", "C09", "C10", "C11", "C12", "C13", "C14", "C15", "C16", "C17", "C18", "C19", "C20"]:
     if _p not in CLAIMED:
